@@ -23,10 +23,10 @@ LEVEL = "exploration"
 CASES = {"quick": 8000, "thorough": 500000}
 POOL = ["#", "-", "?", "*", "+", "|", "(", ")", "[", "]", ";", ":", "=", "+=", "*=", "?=", "!", "&", ",", "Undefined", "R0", "R1",
         "INT", "ID", "OBJECT", "'x'", "''", '"\\N{foo}"', "'\\x'", "'\\u12'", "/(/", "/[/", "/a**/", "/\\/", "/(?P<n>a)(?P<n>b)/",
-        "[ws]", "[skipws=3]", "[ws=' ', split]", "[split='']", "[foo]", "[noskipws, ws='\\t']", "eolterm", "[',' eolterm]",
+        "[nosplit]", "[nows]", "[noskipws, nosplit]", "[nofoo]", "[ws]", "[skipws=3]", "[ws=' ', split]", "[split='']", "[foo]", "[noskipws, ws='\\t']", "eolterm", "[',' eolterm]",
         "[eolterm ',']", "[Undefined]", "[R0:Undefined]", "[R0|..*]", "[R0:ID|+x:a]", "[R0:ID|^^]", "[INT]", "a=R0", "a+=[R0]",
         "Comment", "name", "42", "\\", "'", '"', "//", "/*", "A[", "]#", "#[','", "-?", "?-", "\x00", "é", "𝔘"]
-SEEDS = ["A: B#; B: 'b';", "A[ws]: 'a';", "A: A;", "A: B; B: A;", "A: /(/;", 'A: "\\N{foo}";', "A: a=B#; B: 'b' 'c';",
+SEEDS = ["A[nows]: 'a';", "A[noskipws, nosplit]: 'a' 'b';", "__asgn_plain: 'x' 'y';", "A: B#; B: 'b';", "A[ws]: 'a';", "A: A;", "A: B; B: A;", "A: /(/;", 'A: "\\N{foo}";', "A: a=B#; B: 'b' 'c';",
          "A: ('a' 'b')#[eolterm];", "A: a?=INT a=INT;", "A: (a?=INT)*;", "A: 'a'?[','];", "A: a=INT[','];", "A: a=[INT];",
          "A[split=3]: 'a';", "A: a+=[A:ID|];", "Comment: A; A: 'a';", "A: B; B: C; C: A | 'x';", "A: a=A;", "A: !A 'a';",
          "A: ;", ";", "A", "A:", "A: 'a'", "A: 'a';; ", "A: [A];", "A: a=[A] a=INT;", "ID: 'a';", "A: 'a'; A: 'b';",
